@@ -120,6 +120,9 @@ type StoreWorld struct {
 	faultInStep bool           // an injected (non-crash) disk fault fired during this step
 	phase       string         // "op" while the main store call runs, "observe" afterwards
 	doubtful    bool
+	variants    []*Model         // further admissible pictures for the next observation (restart)
+	lingering   []func(m *Model) // operations that failed after a disk fault and may surface at the next recovery
+	keepLingering bool
 	nextID, nextPayload int
 	batchFirstID string
 }
@@ -277,27 +280,47 @@ func (w *StoreWorld) observe(opDesc string, refused bool) {
 		w.add([]Violation{viol("C02.list.error", "C02", "ListMessages failed after %s: %v", opDesc, err)})
 		return
 	}
-	if w.alt != nil {
-		// an operation is in doubt (its answer was lost in a crash, or it failed
-		// after an injected disk fault): it either took effect completely or
-		// not at all. Judge the listing against both pictures.
-		a, b := w.Model.Clone(), w.alt
-		w.alt = nil
-		va := a.CompareListing(now, opDesc, resp.Items)
-		vb := b.CompareListing(now, opDesc, resp.Items)
+	if w.alt != nil || len(w.variants) > 0 {
+		// one or more operations are in doubt (answer lost in a crash, or failed
+		// after an injected disk fault): each took effect completely or not at
+		// all. Judge the listing against every admissible picture.
+		cands := []*Model{w.Model.Clone()}
+		if w.alt != nil {
+			cands = append(cands, w.alt)
+		}
+		cands = append(cands, w.variants...)
+		hadAlt := w.alt != nil
+		w.alt, w.variants = nil, nil
+		var first []Violation
+		chosen := -1
+		for i, c := range cands {
+			vs := c.CompareListing(now, opDesc, resp.Items)
+			if i == 0 {
+				first = vs
+			}
+			if len(vs) == 0 {
+				chosen = i
+				break
+			}
+		}
 		switch {
-		case len(va) == 0:
-			w.Model = a
+		case chosen == 0:
+			w.Model = cands[0]
 			w.Res.probe("indoubt.notapplied")
-		case len(vb) == 0:
-			w.Model = b
+			if hadAlt && w.doubtful && w.assume != nil && w.keepLingering {
+				// failed after a disk fault and not visible now: a later crash
+				// recovery may still surface it (frames are in the WAL)
+				w.lingering = append(w.lingering, w.assume)
+			}
+		case chosen > 0:
+			w.Model = cands[chosen]
 			w.Res.probe("indoubt.applied")
 		default:
-			w.Model = a
-			for i := range va {
-				va[i].Detail += " [operation in doubt; neither 'took effect' nor 'did not' explains the listing]"
+			w.Model = cands[0]
+			for i := range first {
+				first[i].Detail += " [operation(s) in doubt; no admissible picture explains the listing]"
 			}
-			w.add(va)
+			w.add(first)
 		}
 	} else {
 		vs := w.Model.CompareListing(now, opDesc, resp.Items)
